@@ -232,6 +232,10 @@ class Net(object):
     self.jitter = cfg.get('jitter', 0.0002)
     self.dns_multi = cfg.get('dns_multi', False)
     self.sndbuf = cfg.get('sndbuf', 4096)     # what one send() call accepts at most
+    # errno of an injected error on an established connection: a reset, or what
+    # the kernel reports when its retransmissions give up / a route disappears
+    self.io_errno = {'reset': errno.ECONNRESET, 'timedout': errno.ETIMEDOUT, 'hostunreach': errno.EHOSTUNREACH,
+                     'netunreach': errno.ENETUNREACH}[cfg.get('io_errno', 'reset')]
     self.fired = {}
     self.seq = 0
     self.send_log = []        # (seq, time, conn id, bytes)
@@ -483,7 +487,7 @@ class FakeGSocket(object):
     if kind == 'exc':
       conn.dead = True
       net.loop.schedule(net.lat(conn.ep), conn.ep.server.on_close, conn, kind='net.fin')
-      raise _err(errno.ECONNRESET)
+      raise _err(net.io_errno)
     if kind == 'partial_exc':
       n = max(1, len(data) // 2) if len(data) > 1 else 0
       conn.client_sent(data[:n])
@@ -564,7 +568,7 @@ class FakeGSocket(object):
     kind = d.kind if d else None
     if kind == 'exc':
       conn.dead = True
-      self._error = errno.ECONNRESET
+      self._error = net.io_errno
       net.loop.schedule(net.lat(conn.ep), conn.ep.server.on_close, conn, kind='net.fin')
     elif kind == 'eof':
       conn.dead = True
